@@ -803,6 +803,18 @@ def flat_smiles(rd):
     return _reparsed(rd)
 
 
+def smiles_faithful(rd):
+    """RDKit's SMILES of rd reads back as the same atoms (element, charge, hydrogens, radical electrons)"""
+    from rdkit import Chem
+    def sig(x):
+        return sorted((a.GetAtomicNum(), a.GetFormalCharge(), a.GetTotalNumHs(), a.GetNumRadicalElectrons()) for a in x.GetAtoms())
+    try:
+        again = Chem.MolFromSmiles(Chem.MolToSmiles(strip_maps(rd)))
+    except Exception:
+        again = None
+    return again is not None and sig(again) == sig(rd)
+
+
 def stereo_isomorphic(a, b):
     """same molecule including configuration, decided by RDKit's chirality-aware graph matching in both directions (used
     where canonical SMILES is not canonical: pseudo-asymmetric ring stereo)"""
@@ -1007,6 +1019,9 @@ def oracle_to(rep, smi, form, m, order, ref):
             return rd
         if any(by_map[n][0].GetNumImplicitHs() for n in nums):
             return rd          # hydrogens added by RDKit: already reported atom by atom
+        if not smiles_faithful(rd):
+            ck.count('search-to:undecided (RDKit\'s own SMILES of the bridged molecule reads back with other hydrogens/radicals; atoms and bonds were compared one by one)')
+            return rd
         rep.counterexample(f'to-structure:{key}', 'RDKit canonical SMILES (without configuration) of to_rdkit_molecule differs from RDKit\'s reading of the string',
                            {'smiles': smi, 'form': form}, flat_smiles(rd), flat_smiles(red), 'RDKit canonical SMILES', replay_py=py_to(smi, form))
         return rd
